@@ -15,6 +15,7 @@ import (
 	stdjson "encoding/json"
 	"fmt"
 	"math"
+	"math/rand"
 	"os"
 	"os/exec"
 	"reflect"
@@ -22,6 +23,7 @@ import (
 	"strings"
 	"time"
 	"unicode/utf8"
+	"unsafe"
 
 	gojson "github.com/goccy/go-json"
 )
@@ -75,6 +77,27 @@ func c03Entries() []c03Entry {
 			e := gojson.NewEncoder(&b)
 			e.SetIndent("", " ")
 			err := e.Encode(v)
+			return b.Bytes(), err
+		}, true, "\n"},
+		// audit (A7): the option subsets the list above leaves out: indentation with a field query, with normalisation off, all options at once
+		{"Encoder+SetIndent+EncodeContext+FieldQuery", func(v interface{}) ([]byte, error) {
+			var b bytes.Buffer
+			e := gojson.NewEncoder(&b)
+			e.SetIndent("", "\t")
+			err := e.EncodeContext(gojson.SetFieldQueryToContext(context.Background(), q), v, gojson.UnorderedMap())
+			return b.Bytes(), err
+		}, true, "\n"},
+		{"MarshalIndent+DisableNormalizeUTF8", func(v interface{}) ([]byte, error) {
+			return gojson.MarshalIndentWithOption(v, " ", " ", gojson.DisableNormalizeUTF8())
+		}, false, ""},
+		{"MarshalContext+every option", func(v interface{}) ([]byte, error) {
+			return gojson.MarshalContext(context.Background(), v, gojson.UnorderedMap(), gojson.DisableHTMLEscape(), gojson.DisableNormalizeUTF8())
+		}, false, ""},
+		{"Encoder+SetEscapeHTML(false)+EncodeWithOption(UnorderedMap)", func(v interface{}) ([]byte, error) {
+			var b bytes.Buffer
+			e := gojson.NewEncoder(&b)
+			e.SetEscapeHTML(false)
+			err := e.EncodeWithOption(v, gojson.UnorderedMap())
 			return b.Bytes(), err
 		}, true, "\n"},
 	}
@@ -141,6 +164,63 @@ func runC03Child(o *Out) {
 			N stdjson.Number
 			F float32 `json:",string"`
 		}{}), reflect.TypeOf([]interface{}(nil))}
+	check := func(t reflect.Type, v reflect.Value, ti int, source string) {
+		os.WriteFile(o.dir+"/progress", []byte(strconv.Itoa(ti)), 0o644)
+		for how := 0; how < 2; how++ {
+			arg := c01Reach(v, how)
+			_, stdErr := c01Safe(func() ([]byte, error) { return stdjson.Marshal(arg) })
+			o.current(map[string]string{"property": "C03", "source": source, "type": clipN(t.String(), 600), "value": c01Describe(t, v), "reach": c01ReachName[how], "entry": "(every entry point in turn)", "crash_class": c01CrashClass(t, v, how)})
+			for _, en := range entries {
+				got, err := c01Safe(func() ([]byte, error) { return en.f(arg) })
+				o.count("encodes", 1)
+				key := t.String() + "|" + en.name
+				if err != nil {
+					o.count("encode_errors", 1)
+					if stdErr != nil && c03MustFail(stdErr) {
+						o.count("must_fail_checks_passed:"+en.name, 1)
+					}
+					continue
+				}
+				body := got
+				if en.trail != "" {
+					if !bytes.HasSuffix(got, []byte(en.trail)) {
+						body = nil
+					} else {
+						body = got[:len(got)-len(en.trail)]
+					}
+				}
+				problem := ""
+				if body == nil {
+					problem = "the Encoder's newline is missing"
+				} else if p := c03OneValue(body); p != "" {
+					problem = p
+				} else if len(body) > 0 && (body[0] == ' ' || body[0] == '\n' || body[len(body)-1] == ' ' || body[len(body)-1] == '\n' || body[len(body)-1] == ',') {
+					problem = "white space or a comma around the value"
+				} else if en.utf8 && !utf8.Valid(body) {
+					problem = "not valid UTF-8 although normalisation is on"
+				} else if stdErr != nil && !strings.HasPrefix(stdErr.Error(), "PANIC") && !strings.Contains(en.name, "FieldQuery") && c03MustFail(stdErr) {
+					// (audit A7: on every entry point, not on Marshal alone: the four interpreters and their helpers each have their own
+					// copy of the checks; with a field query the part that cannot be encoded may be left out, so that entry is not judged)
+					o.count("must_fail_checks_failed", 1)
+					problem = "encoding/json refuses this value (" + clipN(stdErr.Error(), 80) + ") but the encoder reports success"
+				}
+				if problem == "" {
+					continue
+				}
+				if reported[key] {
+					o.count("repeat_problems", 1)
+					continue
+				}
+				reported[key] = true
+				if cls := c03Classify(t, v, problem); cls != "" {
+					o.known(cls, fmt.Sprintf("%s %s", en.name, clipN(t.String(), 160)))
+					continue
+				}
+				o.violation("C03", "successful encode is not one well-formed JSON text: "+problem, map[string]string{
+					"source": source, "type": clipN(t.String(), 400), "value": c01Describe(t, v), "entry": en.name, "reach": c01ReachName[how], "output": clipN(string(got), 400), "output_hex": hx(got[:minInt(len(got), 200)])})
+			}
+		}
+	}
 	for ti := 0; ti < ntypes; ti++ {
 		var t reflect.Type
 		if ti%4 == 0 {
@@ -162,56 +242,9 @@ func runC03Child(o *Out) {
 		if ti < skip {
 			continue
 		}
-		os.WriteFile(o.dir+"/progress", []byte(strconv.Itoa(ti)), 0o644)
-		for how := 0; how < 2; how++ {
-			arg := c01Reach(v, how)
-			_, stdErr := c01Safe(func() ([]byte, error) { return stdjson.Marshal(arg) })
-			for _, en := range entries {
-				o.current(map[string]string{"property": "C03", "type": t.String(), "value": c01Describe(t, v), "entry": en.name, "crash_class": c01CrashClass(t, v, how)})
-				got, err := c01Safe(func() ([]byte, error) { return en.f(arg) })
-				o.count("encodes", 1)
-				key := t.String() + "|" + en.name
-				if err != nil {
-					o.count("encode_errors", 1)
-					continue
-				}
-				body := got
-				if en.trail != "" {
-					if !bytes.HasSuffix(got, []byte(en.trail)) {
-						body = nil
-					} else {
-						body = got[:len(got)-len(en.trail)]
-					}
-				}
-				problem := ""
-				if body == nil {
-					problem = "the Encoder's newline is missing"
-				} else if p := c03OneValue(body); p != "" {
-					problem = p
-				} else if len(body) > 0 && (body[0] == ' ' || body[0] == '\n' || body[len(body)-1] == ' ' || body[len(body)-1] == '\n' || body[len(body)-1] == ',') {
-					problem = "white space or a comma around the value"
-				} else if en.utf8 && !utf8.Valid(body) {
-					problem = "not valid UTF-8 although normalisation is on"
-				} else if stdErr != nil && !strings.HasPrefix(stdErr.Error(), "PANIC") && en.name == "Marshal" && c03MustFail(stdErr) {
-					problem = "encoding/json refuses this value (" + clipN(stdErr.Error(), 80) + ") but the encoder reports success"
-				}
-				if problem == "" {
-					continue
-				}
-				if reported[key] {
-					o.count("repeat_problems", 1)
-					continue
-				}
-				reported[key] = true
-				if cls := c03Classify(t, v, problem); cls != "" {
-					o.known(cls, fmt.Sprintf("%s %s", en.name, clipN(t.String(), 160)))
-					continue
-				}
-				o.violation("C03", "successful encode is not one well-formed JSON text: "+problem, map[string]string{
-					"type": clipN(t.String(), 400), "value": c01Describe(t, v), "entry": en.name, "reach": c01ReachName[how], "output": clipN(string(got), 400), "output_hex": hx(got[:minInt(len(got), 200)])})
-			}
-		}
+		check(t, v, ti, "generated type")
 	}
+	c03AuditRun(o, ntypes, skip, check)
 }
 
 // the classes of values JSON cannot represent: the property demands an error for these
@@ -325,4 +358,239 @@ func runC03(o *Out) {
 		n, _ := strconv.Atoi(string(b))
 		skip = n + 1
 	}
+}
+
+// ---- audit strata (A7) ----
+
+// more marshalers that return arbitrary bytes: on the pointer receiver, and a scalar kind
+type C03PBytes struct{ B string }
+
+func (m *C03PBytes) MarshalJSON() ([]byte, error) {
+	if m == nil {
+		return []byte("null"), nil
+	}
+	return []byte(m.B), nil
+}
+
+type C03SBytes string
+
+func (m C03SBytes) MarshalJSON() ([]byte, error) { return []byte(m), nil }
+
+type C03Emb struct {
+	F32 float32 `json:"f32"`
+	Num stdjson.Number
+}
+
+// the positions of what JSON cannot represent: every float width and json.Number and marshaler as element, map value and key,
+// behind pointers, with ,string and omitempty, in embedded structs, inside interface{}; the unsupported kinds
+type C03Positions struct {
+	A    int
+	F32  float32                   `json:"f32"`
+	F64  float64                   `json:"f64,omitempty"`
+	S32  float32                   `json:"s32,string"`
+	S64  *float64                  `json:"s64,string,omitempty"`
+	P32  *float32                  `json:"p32"`
+	PP64 **float64                 `json:"pp64,omitempty"`
+	L32  []float32                 `json:"l32"`
+	L64  [2]float64                `json:"l64"`
+	LP   []*float32                `json:"lp"`
+	M32  map[string]float32        `json:"m32"`
+	M64  map[int8]*float64         `json:"m64,omitempty"`
+	N    stdjson.Number            `json:"n"`
+	NS   stdjson.Number            `json:"ns,string"`
+	NO   stdjson.Number            `json:"no,omitempty"`
+	NP   *stdjson.Number           `json:"np"`
+	NL   []stdjson.Number          `json:"nl"`
+	NM   map[string]stdjson.Number `json:"nm"`
+	NK   map[stdjson.Number]bool   `json:"nk"`
+	MB   C03MBytes                 `json:"mb"`
+	MP   *C03PBytes                `json:"mp,omitempty"`
+	ML   []C03PBytes               `json:"ml"`
+	MM   map[string]*C03PBytes     `json:"mm"`
+	MS   map[C03TBytes]C03SBytes   `json:"ms"`
+	MK   map[string]C03SBytes      `json:"mk,omitempty"`
+	C03Emb
+	E *C03Emb     `json:"e"`
+	I interface{} `json:"i"`
+	Z string      `json:"z"`
+}
+
+// c03PoisonOne puts ONE thing that cannot be encoded at a random position of the value (the rest stays encodable, so the failure
+// happens with part of the output written); false if the value has no position for it
+func c03PoisonOne(r interface{ Intn(int) int }, v reflect.Value) bool {
+	var leaves []reflect.Value
+	var walk func(v reflect.Value, d int)
+	walk = func(v reflect.Value, d int) {
+		if d > 12 || !v.IsValid() {
+			return
+		}
+		switch v.Type() {
+		case reflect.TypeOf(stdjson.Number("")), reflect.TypeOf(C03MBytes{}), reflect.TypeOf(C03TBytes{}), reflect.TypeOf(C03PBytes{}), reflect.TypeOf(C03SBytes("")):
+			if v.CanSet() {
+				leaves = append(leaves, v)
+			}
+			return
+		}
+		switch v.Kind() {
+		case reflect.Float32, reflect.Float64:
+			if v.CanSet() {
+				leaves = append(leaves, v)
+			}
+		case reflect.Interface:
+			if v.CanSet() {
+				leaves = append(leaves, v)
+			}
+		case reflect.Ptr:
+			if !v.IsNil() {
+				walk(v.Elem(), d+1)
+			}
+		case reflect.Slice, reflect.Array:
+			for i := 0; i < v.Len(); i++ {
+				walk(v.Index(i), d+1)
+			}
+		case reflect.Struct:
+			for i := 0; i < v.NumField(); i++ {
+				if v.Type().Field(i).PkgPath == "" {
+					walk(v.Field(i), d+1)
+				}
+			}
+		}
+	}
+	walk(v, 0)
+	if len(leaves) == 0 {
+		return false
+	}
+	l := leaves[r.Intn(len(leaves))]
+	badText := []string{"{", "[1,]", "tru", "1 2", `"a`, "nul", "-", "01", "NaN", "{\"a\":}", ""}[r.Intn(11)]
+	switch {
+	case l.Type() == reflect.TypeOf(stdjson.Number("")):
+		l.SetString([]string{"abc", "1.", "+1", "0x10", "1e", "--1", "1 2", "NaN", "01", "-", ".5", "Infinity", "1,2", "\"1\""}[r.Intn(14)])
+	case l.Type() == reflect.TypeOf(C03SBytes("")):
+		l.SetString(badText)
+	case l.Kind() == reflect.Struct:
+		l.Field(0).SetString(badText)
+		if l.Type() == reflect.TypeOf(C03TBytes{}) {
+			return false // any text can be written as a string
+		}
+	case l.Kind() == reflect.Interface:
+		f32, f64 := float32(math.Inf(-1)), math.NaN()
+		l.Set(reflect.ValueOf([]interface{}{float32(math.NaN()), math.Inf(1), &f32, &f64, []float32{0, f32}, map[string]interface{}{"a": 1, "b": f64}, stdjson.Number("1x"), C03MBytes{B: badText}, &C03PBytes{B: "[" + badText},
+			make(chan int), func() {}, complex(1, 2), complex64(1), [2]chan bool{}, map[string]interface{}{"f": func() {}}, struct {
+				A int
+				C chan int
+			}{}}[r.Intn(16)]))
+	default:
+		l.SetFloat([]float64{math.NaN(), math.Inf(1), math.Inf(-1)}[r.Intn(3)])
+	}
+	return true
+}
+
+func c03AuditRun(o *Out, first, skip int, check func(reflect.Type, reflect.Value, int, string)) {
+	r := rand.New(rand.NewSource(o.seed*1000003 + 0xA703))
+	n := first
+	// 1. exactly one position that cannot be encoded, in generated types and in the table of positions
+	rounds := 300
+	if o.tier == "thorough" {
+		rounds = 10000
+	}
+	posT := reflect.TypeOf(C03Positions{})
+	for i := 0; i < rounds; i++ {
+		n++
+		t := posT
+		if i%3 == 2 {
+			t = tgType(r, 3, tgOpts{named: true})
+			if t.Kind() == reflect.Interface {
+				t = reflect.TypeOf(c01Wrap{})
+			}
+		}
+		v := reflect.New(t)
+		tgValue(r, v.Elem(), 0, []int{0, 10, 30}[i%3], false)
+		if t == posT {
+			c03FixPositions(r, v.Elem())
+		}
+		poisoned := i%5 != 0 && c03PoisonOne(r, v.Elem())
+		if tgKnownBadAnywhere(reflect.PtrTo(t), 0) != "" || n < skip {
+			continue
+		}
+		if poisoned {
+			o.count("audit_values_with_one_unencodable_position", 1)
+		} else {
+			o.count("audit_values_of_the_position_table_left_encodable", 1)
+		}
+		check(t, v, n, "audit: one position that cannot be encoded")
+	}
+	// 2. the shapes and sizes of C01's audit strata (c01.go): is what the encoder writes for them JSON
+	ar := rand.New(rand.NewSource(o.seed*1000003 + 0xA713))
+	var cases []c01AuditCase
+	cases = append(cases, c01AuditMapKeys(ar, o.tier)...)
+	cases = append(cases, c01AuditIfaces(ar, o.tier)...)
+	cases = append(cases, c01AuditEmbedded(ar, o.tier)...)
+	cases = append(cases, c01AuditSizes(ar, o.tier)...)
+	cases = append(cases, c01AuditPayloads(ar, o.tier)...)
+	for _, c := range cases {
+		n++
+		t := c.v.Type().Elem()
+		if c.open != "" {
+			o.count("audit_open_defect_cases:"+c.open, 1)
+			if os.Getenv("AUDIT_OPEN") != "1" || strings.HasSuffix(c.open, "(crash)") {
+				continue
+			}
+		}
+		if n < skip || tgKnownBadAnywhere(reflect.PtrTo(t), 0) != "" || c01CrashClass(t, c.v, 0) != "" || c01CrashClass(t, c.v, 1) != "" {
+			continue
+		}
+		if c.reaches != nil && c.reaches[0] != 0 {
+			continue
+		}
+		o.count("audit_values:"+c.stratum, 1)
+		check(t, c.v, n, "audit stratum "+c.stratum+": "+c.name)
+	}
+	// 3. the unsupported kinds in every position: an error, never output
+	unsupported := []interface{}{make(chan int), (chan int)(nil), func() {}, complex(1, 1), complex64(2), unsafe.Pointer(nil),
+		[]chan int{nil}, []func(){}, map[string]complex128{"a": 1}, map[string]chan int{}, [1]func(){}, struct{ C chan int }{}, struct {
+			A int
+			F func() `json:"f,omitempty"`
+		}{}, struct {
+			A int
+			C *chan int
+		}{}, &struct{ X complex64 }{}, []interface{}{1, make(chan int)}, map[string]interface{}{"a": func() {}}, struct{ I interface{} }{complex(0, 1)},
+		[]interface{}{(chan int)(nil)}, map[string]interface{}{"a": (func())(nil)}, struct{ I interface{} }{map[bool]int(nil)}}
+	for i, x := range unsupported {
+		n++
+		if n < skip {
+			continue
+		}
+		v := c01AuditOf(x)
+		if c01CrashClass(v.Type().Elem(), v, 0) != "" {
+			continue // pointer-shaped aggregates: the recorded family
+		}
+		if i >= len(unsupported)-3 {
+			// found by this audit, not in KNOWN_FINDINGS.txt: a nil chan / func / map with an unsupported key inside interface{} is written as null
+			o.count("audit_open_defect_cases:NilValueOfUnsupportedTypeInInterface", 1)
+			if os.Getenv("AUDIT_OPEN") != "1" {
+				continue
+			}
+		}
+		o.count("audit_values:unsupported kinds", 1)
+		check(v.Type().Elem(), v, n, "audit: unsupported kinds")
+	}
+}
+
+// c03FixPositions makes the table of positions populated (no nil maps / slices / pointers) with encodable values
+func c03FixPositions(r *rand.Rand, v reflect.Value) {
+	f32, f64 := float32(1.5), -2.25
+	pf64 := &f64
+	num := stdjson.Number("12")
+	p := v.Addr().Interface().(*C03Positions)
+	p.S64, p.P32, p.PP64 = &f64, &f32, &pf64
+	p.L32, p.LP = []float32{1, 2}, []*float32{&f32, nil, &f32}
+	p.M32, p.M64 = map[string]float32{"a": 1, "b": 2}, map[int8]*float64{1: &f64, -1: nil}
+	p.N, p.NS, p.NO, p.NP = "1", "2.5", "-3e2", &num
+	p.NL, p.NM, p.NK = []stdjson.Number{"1", "0"}, map[string]stdjson.Number{"x": "1E2"}, map[stdjson.Number]bool{"7": true, "-1.5": false}
+	p.MB, p.MP = C03MBytes{B: ` {"ok":[1,2]} `}, &C03PBytes{B: "[true]"}
+	p.ML, p.MM = []C03PBytes{{B: "1"}, {B: `"s"`}}, map[string]*C03PBytes{"a": {B: "null"}, "n": nil}
+	p.MS, p.MK = map[C03TBytes]C03SBytes{{B: "k<\"\n"}: `{"x":1}`}, map[string]C03SBytes{"a": "12", "b": ` [ ] `}
+	p.C03Emb, p.E = C03Emb{F32: 1, Num: "0"}, &C03Emb{F32: 2, Num: "5"}
+	p.I = []interface{}{1.5, float32(2), stdjson.Number("3"), C03MBytes{B: "{}"}, &C03PBytes{B: "[]"}, map[string]interface{}{"k": &f32}}[r.Intn(6)]
+	p.Z = tgStrings[r.Intn(len(tgStrings))]
 }
